@@ -36,9 +36,10 @@ CLAIM = {
             "in the other arms; the placeholder is key.name (field, method), \"p_\" followed by key.index (parameter), "
             "get_inner_class_name() or else the key (class); the retain predicate is truth-table equivalent to "
             "`(validator AND (info.is_diff() OR javadoc.is_diff())) OR child map non-empty`; child retains precede the parent's is_empty "
-            "test, the validator (and its rewrite) precedes info.is_diff(); Ok(self) is returned. Oracle: spec/dummy_filters.json.",
+            "test, the rewrite precedes info.is_diff(), nothing else is assigned or removed; Action::is_diff is false exactly for None and "
+            "Edit(x, x) (5 cells); Ok(self) is returned. Oracle: spec/dummy_filters.json.",
     "note": "Not decided: idempotence and the exact set of removed entries as a law over all runtime mapping sets / diffs, behaviour of "
-            "IndexMap::retain, Option::is_some_and, JavaStr::starts_with, Action::is_diff, get_inner_class_name (trusted library / other "
+            "IndexMap::retain, Option::is_some_and, JavaStr::starts_with, get_inner_class_name (trusted library / other "
             "properties), output of the eprintln! diagnostics. Trusted: rustc HIR/typeck/const-eval, the FormatArgs templates of the driver, "
             "JavaString::from / ParameterName::from_inner_unchecked keep the string, spec/dummy_filters.json (transcribed from the doc "
             "comment of remove_dummy and the property statement).",
